@@ -72,24 +72,25 @@ type checkCfg struct {
 	binName      string
 	buildFlags   []string
 	points       bool // thorough tier adds statement-level collection points
+	arch386      int  // 0 = never; 1 = thorough tier; 2 = quick tier too: an extra batch built with GOARCH=386 (portable node16 routines, 32-bit uint/int)
 }
 
 var checkCfgs = map[string]checkCfg{
-	"C01": {engine: "world", quickRuns: 24000, thoroughRuns: 600000, kfDomains: []string{"KF-NUL-PREFIX"}},
-	"C02": {engine: "world", quickRuns: 16000, thoroughRuns: 400000},
-	"C03": {engine: "world", quickRuns: 20000, thoroughRuns: 500000},
-	"C04": {engine: "world", quickRuns: 20000, thoroughRuns: 500000},
-	"C05": {engine: "world", quickRuns: 10000, thoroughRuns: 250000},
-	"C06": {engine: "world", quickRuns: 16000, thoroughRuns: 400000},
-	"C08": {engine: "world", quickRuns: 8000, thoroughRuns: 200000},
-	"C09": {engine: "world", quickRuns: 12000, thoroughRuns: 300000},
-	"C11": {engine: "world", quickRuns: 12000, thoroughRuns: 300000},
-	"C12": {engine: "world", quickRuns: 3000, thoroughRuns: 80000},
-	"C13": {engine: "world", quickRuns: 16000, thoroughRuns: 400000},
-	"C14": {engine: "world", quickRuns: 8000, thoroughRuns: 200000},
-	"C15": {engine: "world", quickRuns: 8000, thoroughRuns: 200000},
-	"C18": {engine: "world", quickRuns: 3000, thoroughRuns: 60000, env: []string{"GODEBUG=clobberfree=1"}, crashIsMine: true, binName: "sim-checkptr", buildFlags: []string{"-gcflags=all=-d=checkptr=2"}, points: true},
-	"C10": {engine: "node", quickRuns: 4000, thoroughRuns: 120000},
+	"C01": {engine: "world", quickRuns: 60000, thoroughRuns: 600000, arch386: 2, kfDomains: []string{"KF-NUL-PREFIX"}},
+	"C02": {engine: "world", quickRuns: 50000, thoroughRuns: 400000, arch386: 1},
+	"C03": {engine: "world", quickRuns: 80000, thoroughRuns: 500000, arch386: 1},
+	"C04": {engine: "world", quickRuns: 80000, thoroughRuns: 500000},
+	"C05": {engine: "world", quickRuns: 25000, thoroughRuns: 250000, arch386: 1},
+	"C06": {engine: "world", quickRuns: 40000, thoroughRuns: 400000, arch386: 1},
+	"C08": {engine: "world", quickRuns: 25000, thoroughRuns: 200000},
+	"C09": {engine: "world", quickRuns: 25000, thoroughRuns: 300000, arch386: 1},
+	"C11": {engine: "world", quickRuns: 30000, thoroughRuns: 300000, arch386: 1},
+	"C12": {engine: "world", quickRuns: 12000, thoroughRuns: 80000},
+	"C13": {engine: "world", quickRuns: 60000, thoroughRuns: 400000},
+	"C14": {engine: "world", quickRuns: 30000, thoroughRuns: 200000},
+	"C15": {engine: "world", quickRuns: 20000, thoroughRuns: 200000},
+	"C18": {engine: "world", quickRuns: 6000, thoroughRuns: 60000, env: []string{"GODEBUG=clobberfree=1"}, crashIsMine: true, binName: "sim-checkptr", buildFlags: []string{"-gcflags=all=-d=checkptr=2"}, points: true},
+	"C10": {engine: "node", quickRuns: 30000, thoroughRuns: 120000, arch386: 2},
 	"C16": {engine: "race", quickRuns: 320, thoroughRuns: 30000},
 	"C17": {engine: "heap", quickRuns: 288, thoroughRuns: 1152},
 }
@@ -876,6 +877,24 @@ func (c *checker) worldCheck() (map[string]any, int, int) {
 	}
 	cov["statement_points"] = pointsInfo
 
+	// the same property on a 32-bit build: portable (non-assembly) 16-slot routines, 32-bit uint/int
+	archInfo := map[string]any{"enabled": false}
+	if c.cfg.arch386 == 2 || (c.cfg.arch386 == 1 && c.tier == "thorough") {
+		abin, ok := c.build("sim-386", nil, []string{"GOARCH=386"})
+		if ok {
+			saved := c.budget
+			c.budget = saved / 3
+			ab := c.runBatch(abin, "main", max(300, N/10), env)
+			c.budget = saved
+			c.handleViolations(abin, ab, env)
+			archInfo = map[string]any{"enabled": true, "goarch": "386", "runs": ab.runs, "steps": ab.steps, "tree_instantiations": ab.kinds}
+			br.runs += ab.runs
+			br.steps += ab.steps
+			br.records = append(br.records, ab.records...)
+		}
+	}
+	cov["goarch_386_batch"] = archInfo
+
 	distinct := map[uint64]bool{}
 	nontrivial := 0
 	for _, r := range br.records {
@@ -989,7 +1008,7 @@ func checkMain(args []string) int {
 	} else if c.tier == "thorough" {
 		c.budget = 8 * time.Minute
 	} else {
-		c.budget = 40 * time.Second
+		c.budget = 25 * time.Second
 	}
 	fmt.Printf("VERIF_SEED=%d property=%s tier=%s workers=%d\n", c.seed, prop, c.tier, c.workers)
 
@@ -1072,6 +1091,13 @@ func (c *checker) replay(path string) int {
 	bin := c.self
 	if c.cfg.binName != "" {
 		b, ok := c.build(c.cfg.binName, c.cfg.buildFlags, nil)
+		if !ok {
+			return 2
+		}
+		bin = b
+	}
+	if rf.Trace.Arch == "386" {
+		b, ok := c.build("sim-386", nil, []string{"GOARCH=386"})
 		if !ok {
 			return 2
 		}
